@@ -87,16 +87,6 @@ def readBits (s : BitSource) (numBits : Int) : Res (Nat × BitSource) :=
 def WF (s : BitSource) : Prop :=
   s.bitOffset < 8 ∧ s.byteOffset ≤ s.bytes.length ∧ (s.bitOffset > 0 → s.byteOffset < s.bytes.length)
 
-/-! ## Specification side: the buffer as one bit string -/
-
-/-- the 8 bits of a byte, most significant first -/
-def byteBits (b : Nat) : List Bool :=
-  [b.testBit 7, b.testBit 6, b.testBit 5, b.testBit 4, b.testBit 3, b.testBit 2, b.testBit 1, b.testBit 0]
-
-def allBits (bytes : List Nat) : List Bool := bytes.flatMap byteBits
-
-def bitsToNat (bs : List Bool) : Nat := bs.foldl (fun acc b => 2 * acc + (if b then 1 else 0)) 0
-
 /-! ## parseECIValue (QR) -/
 
 /-- the three ReadBits errors are wrapped into FormatException by the parser -/
